@@ -25,7 +25,9 @@ Canonical(e) ==
    /\ IsRelabellingOf(e)                          \* the form is isomorphic to the input
    /\ e.fix = e.out                               \* and a fixed point
    /\ (e.big => LineageOK(e))
-   /\ LET k == Key(e) IN \A p \in table : (p[1] = k) <=> (p[2] = e.out)     \* equal forms iff same class
+   \* equal forms iff same class; for large symbols the class key is only the lineage (two covers of different symbols
+   \* may well be isomorphic), so only "same class => same form" is required of them
+   /\ LET k == Key(e) IN \A p \in table : IF e.big THEN (p[1] = k => p[2] = e.out) ELSE ((p[1] = k) <=> (p[2] = e.out))
 Next == /\ l <= Len(Rec)
         /\ ("panic" \notin DOMAIN Rec[l] /\ Canonical(Rec[l])) = TRUE
         /\ table' = table \cup {<<Key(Rec[l]), Rec[l].out>>}
